@@ -52,10 +52,12 @@ def run(tier, replay=None):
         for bad, pos in combos:
             if bad == "control-repeat" and client in ("stdio", "json"):
                 continue
+            if bad == "streamend" and client != "get":
+                continue          # the listening stream of the Streamable client ends cleanly every time it is opened
             if client == "get" and pos != "instead":
                 continue          # on the listening stream the bad frame simply precedes a well-formed notification
-            nvar = {"nonjson": 3, "wrongkind": 2, "idtype": 4, "giant": 2, "comment": 4, "fieldtype": 12, "noevent": 4}.get(bad, 1)
-            variants = range(nvar) if tier == "thorough" else ([rnd.randrange(nvar)] if bad not in ("fieldtype", "comment", "noevent") else rnd.sample(range(nvar), 4))
+            nvar = {"nonjson": 3, "wrongkind": 2, "idtype": 4, "giant": 2, "comment": 4, "fieldtype": 12, "noevent": 4, "otherevent": 4}.get(bad, 1)
+            variants = range(nvar) if tier == "thorough" else ([rnd.randrange(nvar)] if bad not in ("fieldtype", "comment", "noevent", "otherevent") else rnd.sample(range(nvar), 4))
             if client == "json" and tier == "thorough":
                 variants = range(5)
             for v in variants:
@@ -94,9 +96,9 @@ def run(tier, replay=None):
                 # on the listening stream the bad frame travels beside a properly answered call: "before" in the model's terms
                 ev = [{"e": "scenario", "bad": sc["bad"], "pos": "before" if sc["client"] == "get" else sc["pos"]},
                       {"e": "call1", "r": outcome(r["call1"], 1500)},
-                      {"e": "idle", "spin": bool(r["idle_cpu_ms"] > 150)},
+                      {"e": "idle", "spin": bool(r["idle_cpu_ms"] > 150 or r.get("gets", 0) > 100)},
                       {"e": "call2", "r": outcome(r["call2"], 2500)}]
-                if r.get("marker") is not None:
+                if r.get("marker") is not None and sc["bad"] != "streamend":
                     ev.append({"e": "marker", "seen": bool(r["marker"])})
                 ev.append({"e": "close", "ok": not r.get("close_err") and r["close_ms"] < 7000})
                 items.append((r["id"], ev))
